@@ -35,7 +35,8 @@ class Cloning:
       else:
         data_cpy[k] = v
     cpy = self.__class__(data_cpy, vlevel = self.vlevel,
-                         virtual = self.virtual, version = self.version)
+                         virtual = self.virtual, version = self.version,
+                         dialect = self._dialect)
     cpy._datatype = self._datatype.copy()
     # cpy._refs and cpy._gfa are not set, so that the cpy is disconnected
     return cpy
